@@ -6,7 +6,7 @@ MCEvsQuick == {"e1"}
 MCStreams == {"s1", "s2"}
 \* configurations with millisecond initialisation; Co60 and Bi207 have the correlated-gamma blocks, the three
 \* double-beta ones end in the Ru100 / Se76 / Sm150 cascades with angular correlation, Zr96 mode 20 is the 4-electron mode
-MCCfgs == {"Co60", "Bi207", "Mo100.2.1", "Ge76.2.1", "Nd150.3.1", "Zr96.0.20"}
+MCCfgs == {"Co60", "Bi207", "Mo100.2.1", "Ge76.2.1", "Nd150.3.7", "Zr96.0.20"}
 MCCfgsSmall == {"Co60", "Mo100.2.1", "Zr96.0.20"}
-MCCfgsMid == {"Co60", "Bi207", "Mo100.2.1", "Ge76.2.1", "Nd150.3.1"}
+MCCfgsMid == {"Co60", "Bi207", "Mo100.2.1", "Ge76.2.1", "Nd150.3.7"}
 =============================================================================
